@@ -15,13 +15,28 @@
 // ROUTING of the generic source (4x-unrolled body, SIMD tail, scalar tail; which element goes to which
 // accumulator; every element exactly once) and the lane arithmetic of the emulations.
 //
-// STATUS (2026-09-25): only the `multiply_*` instances listed in specs.json are registered.  Findings:
+// STATUS (2026-09-26): the harnesses that pass on the unchanged tree are registered in specs.json["C17"] (bounded,
+// `--solver cvc5`, measured time / peak memory recorded there); the ones that exceed 30 min or 8 GB are listed in
+// the report and stay unregistered.  Findings:
 //  * SAT back-ends (CaDiCaL/kissat/minisat) cannot relate the kernel's arithmetic to the reference (two
 //    copies of every multiplier; no structural hashing in CBMC's CNF) — n = 8 does not finish in 5 min;
-//    `--solver cvc5` (term-level sharing) does: multiply 256b n=23 in ~4 min, axpy 128b n=11 in ~2 min.
+//    `--solver cvc5` (term-level sharing) does: multiply 256b n=23 in ~3 min, axpy 128b n=11 in ~2 min.
 //  * CBMC models `fma` by a C library function that computes the UNFUSED a*b+c and asserts
-//    `feraiseexcept` ("floating-point exception") on inf*0 — every kernel using mul_add therefore shows one
-//    failed *library* check (classified ERROR, not FAILED, by vx/kani.py) and fused-vs-unfused is invisible.
+//    `feraiseexcept` ("floating-point exception") on inf*0 — every harness that reaches mul_add (kernel or
+//    reference) therefore shows one failed *library* check; the spec flag `allow_builtin_library_failures`
+//    makes vx/kani.py count such a run as SUCCESS iff that is the ONLY failed check (CBMC's `__CPROVER_assert`
+//    does not cut the path, so the checks behind it are still decided: validated by edit e1, which is reported
+//    FAILED together with the library check).  Fused-vs-unfused is invisible (A-cbmc-fma).
+//  * Kani's `assert!` is assert-then-assume: once `same(r, e)` holds, the later "NaN propagates" assertions are
+//    statements about the reference value only; they roughly double the solver time of a reduction harness
+//    (dot 128b n=11: 367 s with, 163 s without) — hence the `_eq_` variants for the larger shapes.
+//  * A `[f64; 0]` operand (dangling address) makes CBMC's symex unwind every loop to the limit (8 GB exhausted);
+//    the n=0 harnesses use `&arr[..0]` instead.
+//  * ScalarProds3 associates the weight as (p1+p2)-n1 in the SIMD part and as p1-n1+p2 in the scalar tail; the
+//    reference follows the source in both places (`w` / `wt`), because C17 asks for agreement with scalar
+//    arithmetic in the association the kernel itself uses.  Consequence worth knowing (not a C17 violation): the
+//    same element gets a different weight depending on whether it lands in a vector or in the tail, e.g.
+//    p1=1e16, p2=1, n1=1e16 gives 0.0 in the SIMD part and 1.0 in the tail.
 //
 // Every harness fixes the length n (const generic) and leaves ALL contents symbolic (`kani::any()` for
 // every f64, every bit pattern incl. NaN/inf/subnormals/-0.0).  No `kani::assume`.
@@ -291,7 +306,7 @@ fn has_nan<const N: usize>(a: &[f64; N]) -> bool {
     r
 }
 
-fn dot_body<S: Simd, const L: usize, const N: usize>(simd: S, fused: bool) {
+fn dot_body<S: Simd, const L: usize, const N: usize>(simd: S, fused: bool, nan_check: bool) {
     lanes_ok::<S, L>();
     let x: [f64; N] = any_arr();
     let y: [f64; N] = any_arr();
@@ -299,7 +314,7 @@ fn dot_body<S: Simd, const L: usize, const N: usize>(simd: S, fused: bool) {
     let r = simd.vectorize(VectorDot { x: &x[..], y: &y[..] });
     let e = ref_reduce::<L, N>(fused, &x0, &x0, &y0);
     assert!(same(r, e), "C17 vector_dot: sum of the n products in the kernel's association order");
-    if has_nan(&x0) || has_nan(&y0) {
+    if nan_check && (has_nan(&x0) || has_nan(&y0)) {
         assert!(r.is_nan(), "C17 vector_dot: NaN propagates");
     }
     untouched(&x, &x0);
@@ -321,7 +336,7 @@ fn dot_empty_body<S: Simd, const L: usize>(simd: S, fused: bool) {
     untouched(&y, &y0);
 }
 
-fn prods2_body<S: Simd, const L: usize, const N: usize>(simd: S, fused: bool) {
+fn prods2_body<S: Simd, const L: usize, const N: usize>(simd: S, fused: bool, nan_check: bool) {
     lanes_ok::<S, L>();
     let p1: [f64; N] = any_arr();
     let p2: [f64; N] = any_arr();
@@ -338,6 +353,9 @@ fn prods2_body<S: Simd, const L: usize, const N: usize>(simd: S, fused: bool) {
     let e2 = ref_reduce::<L, N>(fused, &w, &w, &y);
     assert!(same(r1, e1), "C17 scalar_prods2: (p1+p2).x in the kernel's association order");
     assert!(same(r2, e2), "C17 scalar_prods2: (p1+p2).y in the kernel's association order");
+    if !nan_check {
+        return;
+    }
     if has_nan(&p1) || has_nan(&p2) {
         assert!(r1.is_nan() && r2.is_nan(), "C17 scalar_prods2: NaN propagates");
     }
@@ -349,7 +367,7 @@ fn prods2_body<S: Simd, const L: usize, const N: usize>(simd: S, fused: bool) {
     }
 }
 
-fn prods3_body<S: Simd, const L: usize, const N: usize>(simd: S, fused: bool) {
+fn prods3_body<S: Simd, const L: usize, const N: usize>(simd: S, fused: bool, nan_check: bool) {
     lanes_ok::<S, L>();
     let p1: [f64; N] = any_arr();
     let n1: [f64; N] = any_arr();
@@ -369,6 +387,9 @@ fn prods3_body<S: Simd, const L: usize, const N: usize>(simd: S, fused: bool) {
     let e2 = ref_reduce::<L, N>(fused, &w, &wt, &y);
     assert!(same(r1, e1), "C17 scalar_prods3: (p1-n1+p2).x in the kernel's association order");
     assert!(same(r2, e2), "C17 scalar_prods3: (p1-n1+p2).y in the kernel's association order");
+    if !nan_check {
+        return;
+    }
     if has_nan(&p1) || has_nan(&p2) || has_nan(&n1) {
         assert!(r1.is_nan() && r2.is_nan(), "C17 scalar_prods3: NaN propagates");
     }
@@ -427,7 +448,21 @@ macro_rules! red {
         #[kani::proof]
         #[kani::unwind(100)]
         fn $name() {
-            $body::<$S, $L, $N>($S, $fused);
+            $body::<$S, $L, $N>($S, $fused, true);
+        }
+    };
+}
+// `<kernel>_eq_<inst>_n<N>`: the same harness WITHOUT the derived "a NaN operand gives a NaN result" assertions.
+// The agreement with the kernel-order scalar reference (the C17 obligation proper) is unchanged; the NaN clause is
+// a property of the reference's VALUE that the solver must bit-blast through the whole multiply-add chain, and it
+// is what makes the n=23 reductions exceed 30 min (prods3_s256_n23: TIMEOUT at 1800 s, 2026-09-26).  The NaN
+// clause stays checked at n = 3, 6, 11 by the full harnesses.
+macro_rules! red_eq {
+    ($name:ident, $body:ident, $S:ident, $L:expr, $N:expr, $fused:expr) => {
+        #[kani::proof]
+        #[kani::unwind(100)]
+        fn $name() {
+            $body::<$S, $L, $N>($S, $fused, false);
         }
     };
 }
@@ -447,6 +482,9 @@ ew!(axpy_s256_n47, axpy_body, Scalar256b, 4, 47);
 ew!(multiply_s256_n47, multiply_body, Scalar256b, 4, 47);
 red!(dot_s256_n47, dot_body, Scalar256b, 4, 47, true);
 red!(prods3_s256_n47, prods3_body, Scalar256b, 4, 47, true);
+red_eq!(dot_eq_s256_n23, dot_body, Scalar256b, 4, 23, true);
+red_eq!(prods2_eq_s256_n23, prods2_body, Scalar256b, 4, 23, true);
+red_eq!(prods3_eq_s256_n23, prods3_body, Scalar256b, 4, 23, true);
 
 // ---- 128-bit emulation (2 lanes): 11 = 8 + 2 + 1 ; 23 = 16 + 3*2 + 1
 ew!(axpy_s128_n11, axpy_body, Scalar128b, 2, 11);
@@ -461,6 +499,7 @@ red!(prods2_s128_n11, prods2_body, Scalar128b, 2, 11, true);
 red!(prods3_s128_n11, prods3_body, Scalar128b, 2, 11, true);
 ew!(axpy_s128_n23, axpy_body, Scalar128b, 2, 23);
 red!(dot_s128_n23, dot_body, Scalar128b, 2, 23, true);
+red_eq!(dot_eq_s128_n11, dot_body, Scalar128b, 2, 11, true);
 
 // ---- 512-bit emulation (8 lanes; the AVX-512 shape): 41 = 32 + 8 + 1 ; 95 = 64 + 3*8 + 7
 ew!(axpy_s512_n41, axpy_body, Scalar512b, 8, 41);
@@ -475,6 +514,8 @@ red!(prods2_s512_n41, prods2_body, Scalar512b, 8, 41, true);
 red!(prods3_s512_n41, prods3_body, Scalar512b, 8, 41, true);
 ew!(axpy_s512_n95, axpy_body, Scalar512b, 8, 95);
 red!(dot_s512_n95, dot_body, Scalar512b, 8, 95, true);
+red_eq!(dot_eq_s512_n41, dot_body, Scalar512b, 8, 41, true);
+red_eq!(prods3_eq_s512_n41, prods3_body, Scalar512b, 8, 41, true);
 
 // ---- pulp::Scalar (1 lane, unfused mul_add_e; scalar tail is always empty): 6 = 4 + 2 ; 11 = 8 + 3
 ew!(axpy_s1_n6, axpy_body, Scalar, 1, 6);
